@@ -5,7 +5,7 @@
    [0,1] and every bound vectors lb <= ub of any sign and magnitude (lb = ub allowed).  IEEE rounding is
    not modelled (see notes/C13.md: the one-ulp excess of span(ones) in binary64 is a recorded finding). *)
 From Coq Require Import Reals List ZArith Bool Lra Floats.
-From OV Require Import Base.RExprC10 Base.FloatKey Model.Clip Model.SpaceInit Model.SpanProofs Model.HyperBox Gen.Span Gen.ClipLoops.
+From OV Require Import Base.RExprC10 Base.FloatKey Model.Clip Model.ClipOrder Model.SpaceInit Model.SpanProofs Model.HyperBox Gen.Span Gen.ClipLoops.
 Import ListNotations.
 Open Scope R_scope.
 
@@ -70,6 +70,21 @@ Theorem C13_hyper_check_limits_keeps_unit_box : forall (lbs ubs : list okey) c,
   length ubs = length lbs -> length c = length lbs -> unit_box c = true ->
   run_cl hyper_check_limits lbs ubs c = c.
 Proof. intros lbs ubs c. apply unit_clip_fixes_unit_box. reflexivity. Qed.
+
+(* enforcement on the unit box is the nearest-point projection: a coordinate is kept or moved to the face 0 or 1,
+   order between coordinates is kept, and no point of [0,1] is skipped (Model/ClipOrder.v at l = 0, h = 1) *)
+Theorem C13_unit_clip_result_is_argument_or_a_face : forall v,
+  clipk (Some K0) (Some K1) (Some v) = Some v \/ clipk (Some K0) (Some K1) (Some v) = Some K0 \/
+  clipk (Some K0) (Some K1) (Some v) = Some K1.
+Proof. intros v. rewrite clipk_clipv. destruct (clipv_cases K0 K1 v) as [H | [H | H]]; rewrite H; auto. Qed.
+
+Theorem C13_unit_clip_monotone : forall r s, Forall2 (fun a b => ole a b = true) r s ->
+  Forall2 (fun a b => ole a b = true) (clip_row (Some K0) (Some K1) r) (clip_row (Some K0) (Some K1) s).
+Proof. exact (clip_row_mono K0 K1). Qed.
+
+Theorem C13_unit_clip_never_farther_from_a_unit_point : forall v w, kle K0 w = true -> kle w K1 = true ->
+  (Z.abs (nk (clipv K0 K1 v) - nk w) <= Z.abs (nk v - nk w))%Z.
+Proof. exact (clipv_nearest K0 K1). Qed.
 
 Theorem C13_hyper_init_unit_box : forall nv nd draws, (nv <= length draws)%nat -> unit_box (firstn nv draws) = true ->
   let a := fst (init_rows hyper_init 0 (map (fun _ => None) (a_pos (zero_agent nv nd))) (map (fun _ => None) (a_pos (zero_agent nv nd)))
